@@ -29,7 +29,8 @@ def build_replayer(work, sanitize=False, arch="avx2"):
     exe = os.path.join(work, "replay_%s%s" % (arch, "_asan" if sanitize else ""))
     if os.path.exists(exe):
         return exe, ""
-    march = ["-march=haswell"] if arch == "avx2" else ["-march=westmere"]
+    arch = "sse" if arch == "sse" else "avx2"      # the avx2-specific drivers need the haswell build; only sse jobs replay on westmere
+    march = ["-march=haswell"] if arch == "avx2" else ["-march=westmere", "-mpclmul"]
     cmd = ["g++", "-std=c++17", "-O1", "-g", "-fno-access-control", "-I" + os.path.join(REPO, "include"),
            "-I" + os.path.join(VERIF, "specs", "include"), "-I" + os.path.join(VERIF, "models")] + march + \
           (["-fsanitize=address,undefined", "-fno-sanitize-recover=undefined"] if sanitize else []) + \
